@@ -191,6 +191,11 @@ long long c_delineate_boundary(long long nrows, long long ncols,
     /* Sort the idxcells_area */
     qsort(idxcells_area, nval, sizeof(long long), compare);
 
+    /* All cells must be in the grid (they are used as index
+     * in catchment_area_mask). Cells are sorted: check first and last */
+    if(idxcells_area[0]<0 || idxcells_area[nval-1]>=ngrid)
+        return CATCHMENT_ERROR + __LINE__;
+
     /* Shifting of cell index  to look for neighbouring cells */
     shift[0] = -1;
     shift[1] = 1;
